@@ -108,7 +108,7 @@ func pairCase(c *mon.Case, r *mon.Run, tr string, dir string, f fault, seed uint
 	case "eof":
 		half.SetCut(f.off, memwire.CutEOF)
 	case "rst":
-		half.SetCut(f.off, memwire.CutRST)
+		cutWithError(half, f.off)
 	case "silence":
 		half.SetCut(f.off, memwire.CutSilence)
 	case "flip":
@@ -552,7 +552,7 @@ func hostileObfs4(c *mon.Case, r *mon.Run, dir string, victimRole string, attack
 func TestCheck(t *testing.T) {
 	r := mon.Start(t, "C10")
 	defer r.Finish()
-	r.Note("rule", "ScrambleSuit client against the reference server, UniformDH and session-ticket handshakes (cuts/flips on the response direction at offsets through and beyond the handshake; authenticated malformed packets: total length too large, payload length beyond total, unknown flags, NewTicket/seed of wrong length, a header promising 1427 bytes never completed, 5000 padding packets, 4 MiB garbage); meek_lite client against scripted raw HTTP peers (non-HTTP garbage, 500 forever, 404 then 200, bodies larger than 65536, lying Content-Length, dropped headers, broken chunking, 65536-byte answers with and without a reading application; the first request held without an answer while the application writes until its Write blocks behind the full queue, then the HTTP connection closed / reset / answered short); SOCKS5 front end with the client stopping (EOF/reset/silence) at every byte offset of a valid exchange and after PRNG garbage; per transport with both roles (obfs2, obfs3, obfs4): real client <-> real server with one wire fault: cut with EOF / reset / silence at byte offset k of either direction (quick: every offset 0..64, every 16th up to 600, PRNG beyond up to the maximum handshake length; thorough: every offset up to 1200 and every 7th beyond) and single-bit mutations at PRNG offsets; scripted peers sending garbage of lengths around every limit (0,1,63,64,140,141,192,193,1000,8191,8192,8193,8194+32,8194+33,16384,65536, 4 MiB) followed by silence or EOF, under chunkings {all,1,PRNG}; obfs2 with a structure-aware hostile peer (correct magic, announced PADLEN in {0, 8192, 8193, 65536, 1 MiB, 64 MiB, 256 MiB}, 256 KiB of padding streamed; judged by the growth of the process heap at quiescence, bound 24 MiB); obfs4 with a key-holding hostile peer (reference implementation): payload length beyond the packet, packets shorter than a header, unknown types, seed packets of wrong length/role, 20000 empty frames, a frame never completed, 4 MiB of garbage after the handshake. Virtual time: every case runs 200 s (all handshake deadlines and the obfs4 close delay) before it is judged at quiescence. Non-trivial = every case; distinct = (transport, role, fault, offset).")
+	r.Note("rule", "ScrambleSuit client against the reference server, UniformDH and session-ticket handshakes (cuts/flips on the response direction at offsets through and beyond the handshake; authenticated malformed packets: total length too large, payload length beyond total, unknown flags, NewTicket/seed of wrong length, a header promising 1427 bytes never completed, 5000 padding packets, 4 MiB garbage); meek_lite client against scripted raw HTTP peers (non-HTTP garbage, 500 forever, 404 then 200, bodies larger than 65536, lying Content-Length, dropped headers, broken chunking, 65536-byte answers with and without a reading application; the first request held without an answer while the application writes until its Write blocks behind the full queue, then the HTTP connection closed / reset / answered short); SOCKS5 front end with the client stopping (EOF/reset/silence) at every byte offset of a valid exchange and after PRNG garbage; per transport with both roles (obfs2, obfs3, obfs4): real client <-> real server with one wire fault: cut with EOF / an error (connection reset, a temporary timeout from a lower layer, ErrUnexpectedEOF, net.ErrClosed, ErrClosedPipe, a wrapped EOF - by offset) / silence at byte offset k of either direction (quick: every offset 0..64, every 16th up to 600, PRNG beyond up to the maximum handshake length; thorough: every offset up to 1200 and every 7th beyond) and single-bit mutations at PRNG offsets; scripted peers sending garbage of lengths around every limit (0,1,63,64,140,141,192,193,1000,8191,8192,8193,8194+32,8194+33,16384,65536, 4 MiB) followed by silence or EOF, under chunkings {all,1,PRNG}; obfs2 with a structure-aware hostile peer (correct magic, announced PADLEN in {0, 8192, 8193, 65536, 1 MiB, 64 MiB, 256 MiB}, 256 KiB of padding streamed; judged by the growth of the process heap at quiescence, bound 24 MiB); obfs4 with a key-holding hostile peer (reference implementation): payload length beyond the packet, packets shorter than a header, unknown types, seed packets of wrong length/role, 20000 empty frames, a frame never completed, 4 MiB of garbage after the handshake. Virtual time: every case runs 200 s (all handshake deadlines and the obfs4 close delay) before it is judged at quiescence. Non-trivial = every case; distinct = (transport, role, fault, offset).")
 	dir := o4.StateDir("c10")
 	r.SpinWatch(memwire.BytesMoved)
 	trs := []string{"obfs2", "obfs3", "obfs4"}
